@@ -121,7 +121,7 @@ impl Prop for C14 {
             }
             r.world.src.send(entry);
             if !r.barrier() {
-                out.fail("reload-lost", format!("step {n}: the notified change of a loaded asset's file (the barrier's sentinel) was never applied although hot_reload kept returning"));
+                out.fail("reload-lost", format!("step {n}: the notified change of a loaded asset's file (the barrier's sentinel) was never applied although hot_reload kept returning {}", r.lost_detail));
                 break;
             }
             for m in r.harness_violations() {
